@@ -141,7 +141,10 @@ def run_program(S, prog, main, clk, stm, fn):
                 return
             c = clocks[op[1]] if k != 'osc' else None
             try:
-                if k == 'sched':
+                if k == 'sched' and op[3] == 'inf':
+                    S.emit('call', api='sched', clock=op[1], task=op[2], arg=1 << 30, inner=inner)
+                    c.sched(float('inf'), tasks[op[2]])
+                elif k == 'sched':
                     S.emit('call', api='sched', clock=op[1], task=op[2], arg=op[3] * K, inner=inner)
                     c.sched(op[3] / U, tasks[op[2]])
                 elif k == 'sched_abs':
